@@ -197,3 +197,148 @@ func (p *Program) findIfaceMethod(key string) *types.Func {
 	}
 	return nil
 }
+
+// VerifyRefinement checks that the verified contract of an implementation method implies the contract of the
+// interface method callers are verified against: the interface's preconditions imply the implementation's (those
+// about the receiver alone are the receiver's object invariant and are assumed: established by its constructor),
+// the implementation's frame is within the interface's, and the implementation's postconditions imply the
+// interface's (clauses marked aux-ensures are auxiliary-variable bookkeeping and are not implementation obligations).
+func (e *Exec) VerifyRefinement(implKey, ifaceKey string) (err error) {
+	defer func() {
+		if r := recover(); r != nil {
+			if u, ok := r.(unsupportedErr); ok {
+				e.Unsupported = append(e.Unsupported, string(u))
+				err = fmt.Errorf("unsupported: %s", string(u))
+				return
+			}
+			panic(r)
+		}
+	}()
+	impl, iface := e.P.Spec.Contracts[implKey], e.P.Spec.Contracts[ifaceKey]
+	fn := e.P.FindFunc(implKey)
+	if impl == nil || fn == nil {
+		return fmt.Errorf("no verified contract for %s", implKey)
+	}
+	m := e.P.findIfaceMethod(ifaceKey)
+	if iface == nil || m == nil {
+		return fmt.Errorf("no interface contract %s", ifaceKey)
+	}
+	e.P.Trusted["used contract: "+implKey] = true
+	var implPkg, ifacePkg *types.Package
+	if pk := e.P.ByPath[impl.Pkg]; pk != nil {
+		implPkg = pk.Types
+	}
+	if pk := e.P.ByPath[iface.Pkg]; pk != nil {
+		ifacePkg = pk.Types
+	}
+	e.ctxPkg = implPkg
+	e.reveal = nil
+	e.siteCount = map[string]int{}
+	e.boxed = map[string]bool{}
+	e.entry = &State{H: map[string]string{}}
+	e.emitSpecPrelude()
+	pre := e.entry.clone()
+	e.Out.Assert("(>= " + e.top(pre) + " 0)")
+	sig := fn.Signature
+	var implNames []string
+	var tys []types.Type
+	if r := sig.Recv(); r != nil {
+		implNames = append(implNames, r.Name())
+		tys = append(tys, r.Type())
+	}
+	for i := 0; i < sig.Params().Len(); i++ {
+		implNames = append(implNames, sig.Params().At(i).Name())
+		tys = append(tys, sig.Params().At(i).Type())
+	}
+	if len(impl.Params) > 0 {
+		implNames = impl.Params
+	}
+	ifaceNames := iface.Params
+	if len(ifaceNames) == 0 {
+		ifaceNames = append([]string{"self"}, sigParamNames(m.Type().(*types.Signature))...)
+	}
+	if len(ifaceNames) != len(implNames) {
+		return fmt.Errorf("parameter lists differ: %v vs %v", implNames, ifaceNames)
+	}
+	implVars, ifaceVars := map[string]Val{}, map[string]Val{}
+	for i := range implNames {
+		v := e.freshTyped("rf$"+ifaceNames[i], tys[i], pre)
+		if i == 0 && sig.Recv() != nil {
+			// the interface value the caller holds is the boxed receiver
+			ifaceVars[ifaceNames[i]] = Val{T: e.box(v, tys[i]), S: SAny, Ty: m.Type().(*types.Signature).Recv().Type()}
+		} else {
+			ifaceVars[ifaceNames[i]] = v
+		}
+		implVars[implNames[i]] = v
+	}
+	name := "refine:" + implKey
+	envI := &Env{e: e, vars: ifaceVars, st: pre, old: pre, home: ifacePkg}
+	envM := &Env{e: e, vars: implVars, st: pre, old: pre, home: implPkg}
+	for _, c := range iface.Requires {
+		e.Out.Assert(e.evalBool(c, envI))
+	}
+	for _, c := range impl.Requires {
+		onlyRecv := sig.Recv() != nil
+		for i, n := range implNames {
+			if i > 0 && mentions(c.E, n) {
+				onlyRecv = false
+			}
+		}
+		t := e.evalBool(c, envM)
+		if onlyRecv {
+			e.P.Trusted["receiver invariant (established by the constructor, assumed at the interface): "+implKey+": "+c.Text] = true
+			e.Out.Assert(t)
+			continue
+		}
+		e.Out.AddObl(&Obligation{Name: name + "/pre:" + c.Label, Func: name, Kind: "refine", Label: c.Label, Text: c.Text, Src: c.Src, Formula: t, Inputs: e.obsOnly(), Obs: e.lastObs})
+		e.Out.Assert(t)
+	}
+	// frame inclusion (by name)
+	allowed := map[string]bool{}
+	for _, mc := range iface.Modifies {
+		allowed[strings.TrimSpace(mc.Text)] = true
+	}
+	for _, mc := range impl.Modifies {
+		t := strings.TrimSpace(mc.Text)
+		root := t
+		if i := strings.IndexAny(t, "[."); i > 0 {
+			root = t[:i]
+		}
+		if !allowed[t] && !allowed[root] {
+			e.unsupported("%s modifies %s, which the interface contract %s does not allow", implKey, t, ifaceKey)
+		}
+	}
+	post := pre.clone()
+	envM.st, envM.old = pre, pre
+	for _, mc := range impl.Modifies {
+		e.havocLoc(mc, envM, pre, post)
+	}
+	if !impl.Flags["noalloc"] {
+		nt := e.havoc(post, "$top", SInt)
+		e.Out.Assert("(>= " + nt + " " + e.top(pre) + ")")
+	}
+	var resT types.Type = sig.Results()
+	if sig.Results().Len() == 1 {
+		resT = sig.Results().At(0).Type()
+	}
+	var res Val
+	if t, ok := resT.(*types.Tuple); !ok || t.Len() > 0 {
+		res = e.freshTyped("rf$result", resT, post)
+	}
+	envM2 := &Env{e: e, vars: implVars, st: post, old: pre, result: &res, home: implPkg}
+	for _, c := range impl.Ensures {
+		e.Out.Assert(e.evalBool(c, envM2))
+	}
+	envI2 := &Env{e: e, vars: ifaceVars, st: post, old: pre, result: &res, home: ifacePkg}
+	n := 0
+	for _, c := range iface.Ensures {
+		if c.Aux {
+			continue
+		}
+		n++
+		t := e.evalBool(c, envI2)
+		e.Out.AddObl(&Obligation{Name: name + "/post:" + c.Label, Func: name, Kind: "refine", Label: c.Label, Text: c.Text, Src: c.Src, Formula: t, Inputs: e.obsOnly(), Obs: e.lastObs})
+	}
+	e.Out.AddObl(&Obligation{Name: name + "/cover:hypotheses", Func: name, Kind: "cover", Label: "hypotheses", Formula: "false", Expect: "sat", Text: "the implementation's contract is satisfiable under the interface's preconditions"})
+	return nil
+}
